@@ -34,7 +34,7 @@ def correspond(run):
 
 
 def direct(run):
-    sklib.direct_props(run, ["smh-f", "smh2-", "ss-order", "optdens-order", "revdens-order", "dens-foreign", "panic"])
+    sklib.direct_props(run, ["smh-f", "smh2-", "ss-order", "optdens-order", "revdens-order", "dens-foreign", "dens-marker", "special-hash", "panic"])
 
 
 def replay(path):
